@@ -19,3 +19,6 @@ pub use state::{Allocation, AllocationId, AllocationState, QueueId};
 
 #[cfg(test)]
 pub use service::tests::test_alloc_service;
+
+#[cfg(feature = "verif")]
+pub use process::verif;
